@@ -207,6 +207,7 @@ class NP:
     sin = staticmethod(_elementwise('sin'))
     cos = staticmethod(_elementwise('cos'))
     sqrt = staticmethod(_elementwise('sqrt'))
+    sinc = staticmethod(_elementwise('sinc'))
 
 
 np = NP()
